@@ -23,7 +23,7 @@ def run(ctx):
     h, r = ctx.gen("one_sub", "GenSubs", dict(one, MaxDepth=2 + (7 if q else 9)))
     gens.append(("one_sub", to_cases(take(h, 2500 if q else 40000, ctx.seed))))
     h, r = ctx.gen("two_subs", "GenSubs", dict(two, MaxDepth=5 + (4 if q else 5)))
-    gens.append(("two_subs", to_cases(take(h, 1500 if q else 40000, ctx.seed))))
+    gens.append(("two_subs", to_cases(take(h, 1500 if q else 15000, ctx.seed))))
     n = 300 if q else 4000
     for nm, cfg in (("random_one", dict(one, MaxDepth=40, MaxWrites=14, MaxPubs=16, MaxTicks=20, Dts={0, 1, 2})),
                     ("random_two", dict(two, MaxDepth=40, MaxWrites=12, MaxPubs=16, MaxTicks=20))):
